@@ -72,6 +72,8 @@ void h_exit(int status, const char *fn) __attribute__((noreturn));
 int h_execlp(const char *file, const char *arg0, ...);
 int h_mutex_lock(pthread_mutex_t *m, const char *expr, const char *fn);
 int h_mutex_unlock(pthread_mutex_t *m, const char *expr, const char *fn);
+int h_cond_wait(pthread_cond_t *c, pthread_mutex_t *m, const char *expr, const char *fn);
+int h_cond_signal(pthread_cond_t *c);
 
 #ifndef H_NO_INTERPOSE
 #define malloc(n) h_malloc((n), __func__, __LINE__)
@@ -94,6 +96,9 @@ int h_mutex_unlock(pthread_mutex_t *m, const char *expr, const char *fn);
 /* lock-order recording (C17): the expression text names the lock class */
 #define pthread_mutex_lock(m) h_mutex_lock((m), #m, __func__)
 #define pthread_mutex_unlock(m) h_mutex_unlock((m), #m, __func__)
+/* reply-queue hand-off (C02): a harness-run writer thread sleeps in cond_wait until the condition is really signalled */
+#define pthread_cond_wait(c, m) h_cond_wait((c), (m), #m, __func__)
+#define pthread_cond_signal(c) h_cond_signal(c)
 #ifdef H_INTERPOSE_THREADS
 #define pthread_create(t, a, f, x) h_pthread_create((t), (a), (f), (x))
 #define pthread_cond_timedwait(c, m, t) h_cond_timedwait((c), (m), (t))
